@@ -67,6 +67,9 @@ func ParsePPSNALUnit(data []byte, spsMap map[uint32]*SPS) (*PPS, error) {
 	pps.BottomFieldPicOrderInFramePresentFlag = reader.ReadFlag()
 	pps.NumSliceGroupsMinus1 = reader.ReadExpGolomb()
 
+	if pps.NumSliceGroupsMinus1 > 7 { // Range 0 to 7 according to 7.4.2.2
+		return nil, fmt.Errorf("num_slice_groups_minus1 %d too big", pps.NumSliceGroupsMinus1)
+	}
 	if pps.NumSliceGroupsMinus1 > 0 {
 		pps.SliceGroupMapType = reader.ReadExpGolomb()
 		switch pps.SliceGroupMapType {
